@@ -1,4 +1,5 @@
 import GJS.Model.Gen
+import GJS.Model.Files
 /-
   C12 — output is a deterministic function of schema content and options.
   Go maps become association lists in the model; the generator reads them only through `alookup` and
@@ -76,5 +77,62 @@ theorem parseTypeList_order_free (m m' : List (String × Json)) (h : m.Perm m') 
 
 example : visited [("b", 1), ("a", 2)] = visited [("a", 2), ("b", 1)] :=
   visited_perm _ _ (List.Perm.swap _ _ _) (by decide)
+
+
+/-! ### schema mappings: main.go assembles `SchemaMappings` by ranging over maps keyed by schema id, so the
+    slice reaches the generator in a random order, one mapping per id.  The lookups are "first match wins";
+    they are order-independent because a match is an exact equality of ids and ids are unique. -/
+
+theorem find_perm_of_unique {α : Type} (p : α → Bool) (l l' : List α) (h : l.Perm l')
+    (hu : ∀ a ∈ l, ∀ b ∈ l, p a = true → p b = true → a = b) : l.find? p = l'.find? p := by
+  induction h with
+  | nil => rfl
+  | cons x _ ih =>
+    simp only [List.find?_cons]
+    split
+    · rfl
+    · exact ih (fun a ha b hb => hu a (List.mem_cons_of_mem _ ha) b (List.mem_cons_of_mem _ hb))
+  | swap x y l =>
+    simp only [List.find?_cons]
+    cases hx : p x <;> cases hy : p y <;> simp
+    have := hu y (by simp) x (by simp) hy hx
+    exact this
+  | trans h1 _ ih1 ih2 =>
+    rw [ih1 hu]
+    exact ih2 (fun a ha b hb => hu a (h1.mem_iff.mpr ha) b (h1.mem_iff.mpr hb))
+
+/-- mappings with pairwise distinct ids (what main.go builds: one per key of the flag maps) -/
+def UniqueIds (ms : List SchemaMapping) : Prop := ∀ a ∈ ms, ∀ b ∈ ms, a.schemaID = b.schemaID → a = b
+
+/-- **C12, mapping order**: the routed output (file, package) of a schema id does not depend on the order in
+    which the mappings reach the generator -/
+theorem route_perm (ms ms' : List SchemaMapping) (dO dP id : String) (h : ms.Perm ms') (hu : UniqueIds ms) :
+    route ms dO dP id = route ms' dO dP id := by
+  unfold route
+  rw [find_perm_of_unique _ ms ms' h]
+  intro a ha b hb pa pb
+  have ea : a.schemaID = id := by simpa using pa
+  have eb : b.schemaID = id := by simpa using pb
+  exact hu a ha b hb (ea.trans eb.symm)
+
+/-- … nor does the root-type override -/
+theorem rootOverride_perm (ms ms' : List SchemaMapping) (id : String) (h : ms.Perm ms') (hu : UniqueIds ms) :
+    rootOverride ms id = rootOverride ms' id := by
+  unfold rootOverride
+  rw [find_perm_of_unique _ ms ms' h]
+  intro a ha b hb pa pb
+  have ea : a.schemaID = id := by have := pa; simp at this; exact this.1
+  have eb : b.schemaID = id := by have := pb; simp at this; exact this.1
+  exact hu a ha b hb (ea.trans eb.symm)
+
+/-- the hypothesis is met by a non-trivial mapping list, and the conclusion is not vacuous -/
+example : UniqueIds [{ schemaID := "urn:a", packageName := "p", outputName := "a.go" }, { schemaID := "urn:a#", packageName := "q", outputName := "b.go" }] := by
+  intro a ha b hb h
+  simp at ha hb
+  rcases ha with rfl | rfl <;> rcases hb with rfl | rfl <;> first | rfl | (exfalso; revert h; decide)
+
+/-- an id that differs from a mapping's id only by a trailing `#` is NOT matched by it: exact equality -/
+theorem route_exact : route [{ schemaID := "urn:a", packageName := "q", outputName := "b.go" }] "-" "p" "urn:a#" = { fileName := "-", pkg := "p" } := by
+  decide
 
 end GJS.Props.C12
